@@ -147,8 +147,14 @@ def run(ctx):
             ctx.ob("R6.3", "%s|%s|re-read-is-job-record" % (S.key, name), ok_rr, where=ctx.where(S, bb),
                    detail="the record moved into the BuildJob is the one re-read under the lock" if ok_rr else "BuildJob.sf is not the re-read record")
 
-    # ---- R6.4 drop discipline in the job coroutines
-    for role, co in (("result-recorder", anchors.result_recorder(prog)), ("unlocked-waiter", anchors.unlocked_waiter(prog))):
+    future_owns_lock(ctx, "R6.4")
+    # ---- R6.4 drop discipline inside the job coroutines
+    for role, getter in (("result-recorder", anchors.result_recorder), ("unlocked-waiter", anchors.unlocked_waiter)):
+        try:
+            co = getter(prog)
+        except __import__("facts").AnchorError as e:
+            ctx.ob("R6.4", "%s|coroutine-present" % role, False, detail="the coroutine that waits for the job while holding the lock is gone: %s" % e)
+            continue
         check_lock_drops(ctx, prog, role, co)
 
     # ---- R6.5
@@ -223,6 +229,28 @@ def run(ctx):
         ctx.ob("R6.8", "Lock-drop-unlocks-iff-owned", ok, where=d.span, detail="drop: unlock() exactly on the owned side" if ok else "drop does not unlock exactly when owned")
 
 
+def future_owns_lock(ctx, rid):
+    """The future returned for a forked job owns the target's lock (captured by value)."""
+    prog = ctx.prog
+    forkers = [b for b in anchors.bodies_calling(prog, anchors.FORK_START) if not b.key.startswith("jobserver::")]
+    ctx.floor(rid, "bodies that fork a job", len(forkers), 2)
+    for F in forkers:
+        fba = BA.of(F)
+        forks = fba.calls(anchors.FORK_START)
+        owning = []
+        for (bb, j, dest, k, ops) in closure_sites(F):
+            cb = prog.bodies.get(k)
+            if cb is not None and cb.coroutine and any(op_local(o) is not None and F.locals[op_local(o)] == LOCK and "move" in o for o in ops):
+                owning.append(bb)
+        oks = common.ok_returns(F)
+        after_fork_oks = [o for o in oks if any(fba.path([f], [o]) for f in forks)]
+        p = fba.path(forks, after_fork_oks, avoid=frozenset(owning)) if after_fork_oks else None
+        ctx.ob(rid, "%s|future-owns-lock" % F.key, bool(owning) and p is None and bool(after_fork_oks), where=F.span,
+               detail="after the fork every Ok return hands back a coroutine that captured the Lock by value" if owning and p is None else
+               "the job is forked but the returned future does not own the target's lock: the lock is released when this function returns, while the job still runs",
+               witness={"path": p[:15] if p else None})
+
+
 def backward_direct(body, l, depth=60):
     """Backward slice of local `l` through value-preserving steps. Returns
     (locals, origins, arithmetic) where origins are the defining calls/aggregates reached that are
@@ -273,13 +301,19 @@ def direct_root(body, l):
         if d[0] == "stmt":
             ps = rvalue_places(d[3])
             if d[3]["k"] in ("use", "ref", "cast") and len(ps) == 1:
+                if ps[0]["l"] == 1 and body.kind == "Closure":
+                    return l          # next step is the closure environment: stop at the local
                 l = ps[0]["l"]
                 continue
             return l
         if d[0] == "call":
             t = d[2]
             if any(IDENTITY_CALLS.fullmatch(p) for p in callee_paths(t)) and t["args"]:
-                l = op_local(t["args"][0])
+                nl = op_local(t["args"][0])
+                nd = ba.single_def(nl) if nl is not None else None
+                if nd and nd[0] == "stmt" and any(p["l"] == 1 for p in rvalue_places(nd[3])) and body.kind == "Closure":
+                    return l
+                l = nl
                 continue
             return l
         return l
